@@ -78,6 +78,9 @@ def generate(repo, features, out_path, target_dir):
     env["RUSTFLAGS"] = "-Zmir-opt-level=0 -Awarnings"
     env["RUSTC_WORKSPACE_WRAPPER"] = FACTGEN_BIN
     env["CARGO_TARGET_DIR"] = target_dir
+    # no incremental cache: a warm cache replays query results computed in an earlier run's order and can hide (or
+    # cause) order-dependent behaviour of the driver; every run must behave like the first one on a fresh copy.
+    env["CARGO_INCREMENTAL"] = "0"
     tmp_out = out_path + ".tmp.%d" % os.getpid()
     env["FACTS_OUT"] = tmp_out
     env["FACTS_CRATE"] = CRATE
